@@ -99,7 +99,7 @@ def h_dense(ctx):
 
 
 def specs(tier, seed, concrete=False):
-    rows, info = P.rows(2 if tier == "quick" else 3, seed, groups=True, candidates=30 if tier == "quick" else 10)
+    rows, info = ([], {}) if concrete else P.rows(2 if tier == "quick" else 3, seed, groups=True, candidates=30 if tier == "quick" else 10)
     return [Spec("pair", h_pair, rows, goals=["true", "false"], max_paths=6000,
                  describe=f"Ace.shadow_of(top, skip) vs packet-level containment, covering array {info} + twins"),
             Spec("dense", h_dense, [{"top": t, "bot": b, "shared": s} for t in DENSE_TOPS for b in DENSE_BOTS for s in (True, False)],
